@@ -1,4 +1,4 @@
-import SqlgrepModel.Model.Exec
+import SqlgrepModel.Lemmas.AggFollowRun
 /-
 C11 — incremental (tail -f) results equal a batch run over the same prefix.
 
@@ -6,8 +6,9 @@ Follow mode feeds lines one at a time through `executeLine … (withResult := tr
 `executeLine … (withResult := false)` for aggregates (update only) and prints one final table, and the very
 same per-line step for non-aggregates. Part 1 (this file, proved): non-aggregate statements — the rows
 emitted for the k-th line are exactly the rows by which the batch output over k lines extends the batch
-output over k−1 lines. Part 2 (aggregates: the table after the k-th update+result equals the batch result
-over the first k lines) builds on the aggregation refinement lemmas (Lemmas/Agg*.lean).
+output over k−1 lines. Part 2 (aggregates, end of this file): the table shown after the k-th update+result equals
+the batch result over the first k lines — from the aggregation refinement (Lemmas/Agg*.lean): `execute_result` keeps
+the coupling between state and per-group rows (`result_repeatable`), and the table is a function of those rows alone.
 -/
 namespace Sqlgrep.Props.C11
 open Sqlgrep
@@ -70,5 +71,70 @@ theorem select_incremental_eq_batch_extension (O : Oracles) (qy : Query) (idx : 
         | none => []) := by
   rw [runFile_append O qy idx w pre fl {} hstop]
   exact batch_line_extends O qy idx w fl _ es' lo hr hx
+
+/-! ### aggregate statements -/
+
+open Sqlgrep.Spec.Agg
+
+/-- in follow mode the engine's per-line step for an aggregate statement (no join) is "update, then — if WHERE admitted
+the row — a full result" on the aggregation state -/
+theorem agg_follow_step (O : Oracles) (qy : Query) (q : AggStmt) (idx : JoinIndex) (es : EngineState) (l : Line)
+    (hq : qy.stmt = .aggregate q) (hj : qy.join = none) (hadm : anyResult l.row = true) :
+    executeLine O qy idx true es l =
+      (followStep O q es.agg (lineEnv qy.table l)).bind (fun p =>
+        .ok (updateLimit false q.limit { es with agg := p.1 } p.2)) :=
+  executeLine_follow_agg O qy q idx es l hq hj hadm
+
+/-- in batch mode the per-line step is the update alone (the table is printed once, by `finalResult`) -/
+theorem agg_batch_step (O : Oracles) (qy : Query) (q : AggStmt) (idx : JoinIndex) (es : EngineState) (l : Line)
+    (hq : qy.stmt = .aggregate q) (hj : qy.join = none) (hadm : anyResult l.row = true) :
+    executeLine O qy idx false es l =
+      (aggUpdateRow O q es.agg (lineEnv qy.table l)).bind (fun p =>
+        .ok ({ es with agg := p.1 }, { result := none, reachedLimit := false })) :=
+  executeLine_batch_agg O qy q idx es l hq hj hadm
+
+/-- **results are repeatable** (`R s g → R (result s).state g`): the only state change of `execute_result` is
+`publishPercentiles`, which keeps every cell similar to the fold of its aggregate over its group's rows; DISTINCT
+uses a fresh memory per result (D24 repaired), so nothing else leaks between refreshes. -/
+theorem result_repeatable {O : Oracles} {q : AggStmt} {st st2 : AggState} {rows : List (List Value × Env)} {out : RowOut}
+    (hc : CoupledP O q st rows) (hres : aggResult O q st = .ok (st2, out)) : CoupledP O q st2 rows := by
+  rw [aggResult_state hres]; exact coupledP_publish hc
+
+/-- the coupling survives any history of update+result steps -/
+theorem follow_history_coupled {O : Oracles} {q : AggStmt} (envs : List Env) {st : AggState}
+    (h : followRun O q envs {} = .ok st) : ∃ rows, keyedRows O q envs = some rows ∧ CoupledP O q st rows := by
+  obtain ⟨rows, hr, hc⟩ := followRun_coupledP envs (coupledP_init O q) h
+  exact ⟨rows, hr, by simpa using hc⟩
+
+/- Full statement (`follow_eq_batch_prefix`, aggregate half): for every aggregate statement without LIMIT, every input
+   and every k, the table shown after the k-th line in follow mode equals the table of a batch run over the first k
+   lines. Proved below under the hypotheses inherited from `agg_refines_spec_partial` (C04): the specification fixes the
+   outcome for that prefix (no evaluation error, exact keys, …), the prefix is outside the open findings D10/D15, and
+   the batch run over the prefix does not fail. What is missing for the unconditional statement is a direct simulation
+   between the follow-mode and the batch-mode state (which would also cover the D10 groups and error cases); those
+   cases are decided by the correspondence and by the prefix relation evaluated on the implementation. -/
+
+/-- **C11, aggregate half.** Feed the lines `pre` one at a time (update + result each), then a k-th line that WHERE
+admits: the table shown for it is exactly the table a batch run (update only per line, one result at the end) over
+`pre ++ [env]` produces. -/
+theorem follow_eq_batch_prefix_partial {O : Oracles} {q : AggStmt} (hwf : StmtWF q) (hlim : q.limit = none)
+    (pre : List Env) (env : Env) {sf sf1 sf2 sb : AggState} {out : RowOut}
+    (hfollow : followRun O q pre {} = .ok sf) (hupd : aggUpdateRow O q sf env = .ok (sf1, true))
+    (hres : aggResult O q sf1 = .ok (sf2, out))
+    (hbatch : aggRun O q (pre ++ [env]) {} = .ok sb)
+    {t : List (List Value)} (hspec : table O q (pre ++ [env]) = some t) (hclass : deviationClass O q (pre ++ [env]) = "") :
+    finalResult O q { agg := sb } = .ok out :=
+  follow_table_eq_batch hwf hlim pre env hfollow hupd hres hbatch hspec hclass
+
+/-- `SELECT COUNT(*) FROM t` -/
+def exCount : AggStmt :=
+  { items := [{ name := "count0", kind := .count none false, transform := none }], filter := none, groupBy := none,
+    having := none, havingAggs := [], havingKeys := [], havingVisit := [], limit := none, distinct := false }
+
+/-- non-vacuity: after one line fed incrementally, the second line's table (`2`) is the batch table over both lines -/
+example : ∃ sf sf1 sf2 sb out, followRun {} exCount [{}] {} = .ok sf ∧ aggUpdateRow {} exCount sf {} = .ok (sf1, true) ∧
+    aggResult {} exCount sf1 = .ok (sf2, out) ∧ aggRun {} exCount [{}, {}] {} = .ok sb ∧
+    out.rows = [[.int 2]] ∧ finalResult {} exCount { agg := sb } = .ok out :=
+  ⟨_, _, _, _, _, rfl, rfl, rfl, rfl, rfl, rfl⟩
 
 end Sqlgrep.Props.C11
